@@ -88,6 +88,35 @@ def zero_coupling_job(job):
     return out
 
 
+def slice_count_job(job):
+    """The number of imaginary-time slices is n_steps for every (T, n_steps): dynamics of n_steps + 1 points ending at
+    1/T and, at zero coupling, the canonical state of a complex Hermitian Hamiltonian (float arithmetic on 1/T must
+    not decide how many slices are taken)."""
+    import oqupy
+    from scipy.linalg import expm
+    temp, ns = job
+    h = np.array([[0.4, 0.3 - 0.2j], [0.3 + 0.2j, -0.1]])
+    ref = expm(-h / temp)
+    ref = ref / np.trace(ref)
+    corr = oqupy.PowerLawSD(alpha=0.1, zeta=1.0, cutoff=2.0, cutoff_type="exponential", temperature=temp)
+    out = []
+    for n in ns:
+        try:
+            g = oqupy.GibbsTempo(oqupy.System(h), oqupy.Bath(np.zeros((2, 2)), corr), oqupy.GibbsParameters(n_steps=n, epsrel=1e-12))
+            dyn = g.compute(progress_type="silent")
+            state = g.get_state()
+        except Exception as ex:  # pylint: disable=broad-except
+            out.append({"what": "exception", "T": temp, "n_steps": n, "detail": "%s: %s" % (type(ex).__name__, str(ex)[:120])})
+            continue
+        if len(dyn.states) != n + 1:
+            out.append({"what": "length", "T": temp, "n_steps": n, "expected": n + 1, "observed": len(dyn.states)})
+        elif abs(dyn.times[-1] - 1.0 / temp) > 1e-9 / temp:
+            out.append({"what": "last-time", "T": temp, "n_steps": n, "observed": float(dyn.times[-1])})
+        elif np.max(np.abs(state - ref)) > 1e-9:
+            out.append({"what": "gibbs-state", "T": temp, "n_steps": n, "err": float(np.max(np.abs(state - ref)))})
+    return out
+
+
 def commuting_job(job):
     import oqupy
     counts, n, o, energies, temp, seed = job
@@ -199,6 +228,15 @@ def run(ctx):
         ctx.case(cid, nontrivial=any(e[1] != 0 for row in c["p"] for e in row))
         for x in mm:
             ctx.violation("C11:zero-coupling:%s" % x["what"], "%s: %s" % (cid, x), {"zero": [c, t]})
+    # the number of slices over a lattice of temperatures and step numbers
+    temps = (0.1, 0.3, 0.5, 0.7, 0.9, 1.1, 1.3, 1.7, 2.1, 2.9) + (() if quick else (0.23, 0.6, 1.9, 3.7, 5.3))
+    nmax = 36 if quick else 64
+    sjobs = [(t, list(range(lo, min(lo + 6, nmax + 1)))) for t in temps for lo in range(2, nmax + 1, 6)]
+    for j, mm in zip(sjobs, core.pmap(slice_count_job, sjobs)):
+        for n in j[1]:
+            ctx.case({"check": "slice count, zero coupling", "T": j[0], "n_steps": n}, nontrivial=True)
+        for x in mm:
+            ctx.violation("C11:slices:%s" % x["what"], str(x), {"slices": [x["T"], [x["n_steps"]]]})
     # commuting models with the lattice probe
     counts_by_n = {c["n"]: c["counts"] for c in r.cases}
     # every pattern of repeated coupling eigenvalues (tuples from Degeneracy.tla; the imaginary-time backend has
@@ -261,6 +299,8 @@ def replay(ctx, rep):
         mm = c14.replay_case(c["history"])
     elif "physical" in c:
         mm = physical_job(tuple(c["physical"]))
+    elif "slices" in c:
+        mm = slice_count_job(tuple(c["slices"]))
     else:
         mm = numeric_job(tuple(c["numeric"]))
     ctx.case({"replay": True})
